@@ -508,6 +508,24 @@ class Exec(Executor):
 
         return self.bind(self.ev(recv_node, st), f)
 
+    def mapping_value_td(self, call: ast.Call) -> Any:
+        """Value type of ``m.get(...)`` when ``m`` is a parameter of the function being executed annotated dict[K, V] / Mapping[K, V]."""
+        f = call.func
+        fi = self.frames[-1].fi if self.frames else None
+        if not (isinstance(f, ast.Attribute) and isinstance(f.value, ast.Name)) or fi is None:
+            return None
+        a = fi.node.args
+        for p in a.posonlyargs + a.args + a.kwonlyargs:
+            if p.arg == f.value.id and p.annotation is not None:
+                ann = p.annotation
+                if isinstance(ann, ast.Constant) and isinstance(ann.value, str):
+                    ann = ast.parse(ann.value, mode="eval").body
+                parts = self.types._union_parts(ann)
+                for q in parts:
+                    if isinstance(q, ast.Subscript) and ast.unparse(q.value) in ("dict", "Mapping", "MutableMapping") and isinstance(q.slice, ast.Tuple) and len(q.slice.elts) == 2:
+                        return self.types.td_of_annotation(q.slice.elts[1], fi.module)
+        return None
+
     def apply_mutator(self, recv: Any, meth: str, args: list[Any], st: State, node: ast.AST) -> Any:
         if isinstance(recv, SV) and recv.td == TTagSet:
             a = args[0] if args else None
@@ -1091,7 +1109,7 @@ class Exec(Executor):
             v = args[0]
             if isinstance(v, (PyTuple, PyList)):
                 return self.ok(smt.lift(len(v.items)), st)
-            if isinstance(v, PyDict):
+            if isinstance(v, PyDict) and _const_keys(v):
                 return self.ok(smt.lift(len(v.keys)), st)
             if isinstance(v, SV) and isinstance(v.td, TSeqT):
                 return self.ok(SV(TInt, v.td.info.len(v.z)), st)
@@ -1176,14 +1194,44 @@ class Exec(Executor):
                 return self.ok(PyDict([], [], True), st)
         if name == "id":
             return self.ok(TInt.fresh("id"), st)
+        if name == "any.get" and len(args) in (2, 3) and isinstance(args[0], SV) and isinstance(node, ast.Call):
+            vtd = self.mapping_value_td(node)
+            if vtd is not None:
+                # a mapping handed in by the caller: ``get`` yields the default, or some value the mapping already holds --
+                # an object that exists already (not allocated by this call), about which nothing else is known
+                default = args[2] if len(args) > 2 else smt.lift(None)
+                got = vtd.fresh("got")
+                got.fresh = False
+                s1 = st.fork()
+                s1.assume(*self.type_facts(got.z, vtd, s1))
+                if isinstance(vtd, TRefT):
+                    s1.assume(got.z != smt.NONE, smt.born(got.z) < self.born_clock)
+                return [Res("ok", got, s1), Res("ok", default, st)]
         if name in ("PyDict.get", "PyDict.items"):
             d = args[0]
+            if name == "PyDict.items" and not _const_keys(d):
+                raise OutsideSubset("items() of a dict with symbolic keys", node)
             if name == "PyDict.get":
-                key = _const_str(args[1])
-                for kk, vv in zip(d.keys, d.values):
-                    if _const_str(kk) == key:
-                        return self.ok(vv, st)
-                return self.ok(args[2] if len(args) > 2 else smt.lift(None), st)
+                default = args[2] if len(args) > 2 else smt.lift(None)
+                if not d.keys:
+                    return self.ok(default, st)
+                if _const_keys(d):
+                    key = _const_str(args[1])
+                    for kk, vv in zip(d.keys, d.values):
+                        if _const_str(kk) == key:
+                            return self.ok(vv, st)
+                    return self.ok(default, st)
+                # symbolic keys (e.g. id(x)): one path per entry the key may equal (latest entry first), one for "absent"
+                out: list[Res] = []
+                rest = st
+                for kk, vv in reversed(list(zip(d.keys, d.values))):
+                    eq = self.equals(args[1], kk, rest, node)
+                    if self.feasible(rest, eq):
+                        out.append(Res("ok", vv, rest.fork().assume(eq)))
+                    rest = rest.fork().assume(z3.Not(eq))
+                if self.feasible(rest, z3.BoolVal(True)):
+                    out.append(Res("ok", default, rest))
+                return out
             return self.ok(PyList([PyTuple([k, v]) for k, v in zip(d.keys, d.values)], True), st)
         if name == "PyList.copy" or name == "PyTuple.copy":
             return self.ok(PyList(list(args[0].items), True), st)
@@ -1312,6 +1360,11 @@ class _EnvView:
 
 def _rel(ex: Executor, ci: ClassInfo) -> ClassInfo:
     return ex.types.relation_root if ci.name == "Relation" else ci
+
+
+def _const_keys(d: PyDict) -> bool:
+    """Keys are constant strings (entries are then known to be distinct)."""
+    return all(isinstance(kk, str) or (isinstance(kk, SV) and z3.is_string_value(kk.z)) for kk in d.keys)
 
 
 def _const_str(v: Any) -> str:
